@@ -19,26 +19,26 @@ set_option linter.unusedSimpArgs false
 /-! ## exact arithmetic -/
 
 /-- `+ - *` on rationals are the field operations (no rounding, no overflow). -/
-theorem C04.exact_ring (a b : Rat) :
+theorem C04.exact_ring [StrNorm] (a b : Rat) :
     evalBin .add (.rat a) (.rat b) = .ok (.rat (a + b)) ∧
     evalBin .sub (.rat a) (.rat b) = .ok (.rat (a - b)) ∧
     evalBin .mul (.rat a) (.rat b) = .ok (.rat (a * b)) := ⟨rfl, rfl, rfl⟩
 
-example : evalBin .add (.rat (1/3)) (.rat (1/6)) = .ok (.rat (1/2)) := by decide +kernel
+example : @evalBin StrNorm.plain .add (.rat (1/3)) (.rat (1/6)) = .ok (.rat (1/2)) := by decide +kernel
 
 /-- Division is exact, and division by zero is rejected as an invalid definition. -/
-theorem C04.exact_div (a b : Rat) :
+theorem C04.exact_div [StrNorm] (a b : Rat) :
     (b ≠ 0 → evalBin .div (.rat a) (.rat b) = .ok (.rat (a / b))) ∧
     (b = 0 → evalBin .div (.rat a) (.rat b) = .error (.invalid .divZero)) := by
   constructor
   · intro h; simp [evalBin, scBin, h, Except.map]
   · rintro rfl; simp [evalBin, scBin, Except.map, inval]
 
-example : evalBin .div (.rat 1) (.rat 3) = .ok (.rat (1/3)) := by decide +kernel
+example : @evalBin StrNorm.plain .div (.rat 1) (.rat 3) = .ok (.rat (1/3)) := by decide +kernel
 
 /-- `%` is the floored modulo on rationals: `a = k*b + r` for an integer `k`, with `r` between zero and the divisor
     (taking the divisor's sign); modulo zero is rejected. -/
-theorem C04.exact_mod (a b : Rat) :
+theorem C04.exact_mod [StrNorm] (a b : Rat) :
     (b ≠ 0 → ∃ r : Rat, evalBin .mod (.rat a) (.rat b) = .ok (.rat r) ∧ (∃ k : Int, a = k * b + r) ∧
         (0 < b → 0 ≤ r ∧ r < b) ∧ (b < 0 → b < r ∧ r ≤ 0)) ∧
     (b = 0 → evalBin .mod (.rat a) (.rat b) = .error (.invalid .divZero)) := by
@@ -47,21 +47,21 @@ theorem C04.exact_mod (a b : Rat) :
     exact ⟨ratMod a b, by simp [evalBin, scBin, h, Except.map], ratMod_spec a b⟩
   · rintro rfl; simp [evalBin, scBin, Except.map, inval]
 
-example : evalBin .mod (.rat (-7)) (.rat 3) = .ok (.rat 2) := by decide +kernel
+example : @evalBin StrNorm.plain .mod (.rat (-7)) (.rat 3) = .ok (.rat 2) := by decide +kernel
 
 /-- A power with an integral exponent is the exact power, negative exponents included; only `0 ** negative` is
     rejected. -/
-theorem C04.exact_pow (a : Rat) (n : Int) :
+theorem C04.exact_pow [StrNorm] (a : Rat) (n : Int) :
     ((a ≠ 0 ∨ 0 ≤ n) → evalBin .pow (.rat a) (.rat (n : Rat)) = .ok (.rat (a ^ n))) ∧
     ((a = 0 ∧ n < 0) → evalBin .pow (.rat a) (.rat (n : Rat)) = .error (.invalid .divZero)) := by
   constructor
   · intro h; simp [evalBin, scBin, scPow_int a n h, Except.map]
   · rintro ⟨rfl, hn⟩; simp [evalBin, scBin, scPow_zero_neg n hn, Except.map]
 
-example : evalBin .pow (.rat 2) (.rat (-1)) = .ok (.rat (1/2)) := by decide +kernel
+example : @evalBin StrNorm.plain .pow (.rat 2) (.rat (-1)) = .ok (.rat (1/2)) := by decide +kernel
 
 /-- Comparisons of rationals are the order of ℚ. -/
-theorem C04.exact_cmp (a b : Rat) :
+theorem C04.exact_cmp [StrNorm] (a b : Rat) :
     evalBin .eq (.rat a) (.rat b) = .ok (.bool (decide (a = b))) ∧
     evalBin .lt (.rat a) (.rat b) = .ok (.bool (decide (a < b))) ∧
     evalBin .le (.rat a) (.rat b) = .ok (.bool (decide (a ≤ b))) ∧
@@ -75,7 +75,7 @@ theorem C04.exact_cmp (a b : Rat) :
 /-- Exactly the operand combinations of the table (Appendix E of DESIGN.md, `Ex.defined`) produce a value, and every
     other combination is rejected as an invalid definition — never a hazard or a foreign outcome — for all operators
     and all values satisfying the set invariant, as long as exponents are integral (the bound of the property). -/
-theorem C04.defined (op : BinOp) (a b : Val) (ha : a.wf) (hb : b.wf) (hexp : intExpV op b) :
+theorem C04.defined [StrNorm] (op : BinOp) (a b : Val) (ha : a.wf) (hb : b.wf) (hexp : intExpV op b) :
     ((∃ v, evalBin op a b = .ok v) ↔ Ex.defined op a b) ∧
     (∀ e, evalBin op a b = .error e → ∃ k, e = .invalid k) :=
   evalBin_defined op a b ha hb hexp
@@ -84,26 +84,122 @@ example : Ex.defined .add (.set [.rat 1, .rat 2]) (.rat 3) := ⟨rfl, by simp [d
 example : ¬ Ex.defined .add (.rat 1) (.str []) := by simp [Ex.defined, definedSc]
 
 /-- Results of the operators satisfy the set invariant again (non-empty, one element kind, duplicate-free). -/
-theorem C04.defined_closed (op : BinOp) (a b v : Val) (h : evalBin op a b = .ok v) : v.wf := evalBin_wf op a b v h
+theorem C04.defined_closed [StrNorm] (op : BinOp) (a b v : Val) (h : evalBin op a b = .ok v) : v.wf := evalBin_wf op a b v h
 
 /-- Unary operators: `+`/`-` on rationals, `!` on booleans, everything else rejected. -/
 theorem C04.defined_unary (op : UnOp) (v : Val) :
     (∃ r, evalUn op v = .ok r) ↔ ((op = .pos ∨ op = .neg) ∧ ∃ q, v = .rat q) ∨ (op = .not ∧ ∃ b, v = .bool b) := by
   cases op <;> rcases v with (_ | _ | _) | _ <;> simp [evalUn, inval]
 
+/-! ## strings -/
+
+/-- Strings: `+` concatenates the code points and does nothing else to them; `==` holds exactly when the normal forms
+    of the two operands are equal and `!=` is its negation - whether an operand is a literal or the result of a
+    concatenation, on either side.  (The normal form is a parameter: the statement holds for every normalisation
+    function; the driver runs the evaluator with `Ucd.nfc`, see below.) -/
+theorem C04.strings [StrNorm] (a b c : List Nat) :
+    evalBin .add (.str a) (.str b) = .ok (.str (a ++ b)) ∧
+    evalBin .eq (.str a) (.str b) = .ok (.bool (decide (StrNorm.nfc a = StrNorm.nfc b))) ∧
+    evalBin .ne (.str a) (.str b) = .ok (.bool (decide (StrNorm.nfc a ≠ StrNorm.nfc b))) ∧
+    (∀ r, evalBin .add (.str a) (.str b) = .ok r →
+      evalBin .eq r (.str c) = .ok (.bool (decide (StrNorm.nfc (a ++ b) = StrNorm.nfc c))) ∧
+      evalBin .eq (.str c) r = .ok (.bool (decide (StrNorm.nfc c = StrNorm.nfc (a ++ b))))) := by
+  refine ⟨?_, ?_, ?_, ?_⟩
+  · simp [evalBin, scBin, Except.map]
+  · simp [evalBin, scBin, Except.map, beq_eq_decide]
+  · simp [evalBin, scBin, Except.map, bne, beq_eq_decide]
+  · intro r h
+    have hr : r = .str (a ++ b) := by simpa [evalBin, scBin, Except.map] using h.symm
+    subst hr
+    constructor <;> simp [evalBin, scBin, Except.map, beq_eq_decide]
+
+/-- String `==` is an equivalence relation on texts (the kernel of the normal form). -/
+theorem C04.strings_equivalence [StrNorm] (a b c : List Nat) :
+    evalBin .eq (.str a) (.str a) = .ok (.bool true) ∧
+    (evalBin .eq (.str a) (.str b) = .ok (.bool true) → evalBin .eq (.str b) (.str a) = .ok (.bool true)) ∧
+    (evalBin .eq (.str a) (.str b) = .ok (.bool true) → evalBin .eq (.str b) (.str c) = .ok (.bool true) →
+      evalBin .eq (.str a) (.str c) = .ok (.bool true)) := by
+  simp only [evalBin, scBin, Except.map, Except.ok.injEq, Val.sc.injEq, Scalar.bool.injEq, beq_iff_eq, beq_self_eq_true, true_and]
+  exact ⟨fun h => h.symm, fun h1 h2 => h1.trans h2⟩
+
+/-- Hangul: the arithmetic composition inverts the arithmetic decomposition of every syllable. -/
+theorem C04.hangul_roundtrip (s : Nat) :
+    (∀ l v, hangulDecomp s = some [l, v] → hangulComp l v = some s) ∧
+    (∀ l v t, hangulDecomp s = some [l, v, t] → ∃ lv, hangulComp l v = some lv ∧ hangulComp lv t = some s) := by
+  constructor
+  · intro l v h
+    unfold hangulDecomp at h
+    unfold hangulComp
+    unfold hSBase hLBase hVBase hTBase hLCount hVCount hTCount hNCount hSCount at *
+    split at h
+    · simp only [Option.some.injEq] at h
+      split at h
+      · simp only [List.cons.injEq, and_true] at h
+        obtain ⟨rfl, rfl⟩ := h
+        split
+        · exact congrArg some (by omega)
+        · omega
+      · simp at h
+    · simp at h
+  · intro l v t h
+    unfold hangulDecomp at h
+    unfold hangulComp
+    unfold hSBase hLBase hVBase hTBase hLCount hVCount hTCount hNCount hSCount at *
+    split at h
+    · simp only [Option.some.injEq] at h
+      split at h
+      · simp at h
+      · simp only [List.cons.injEq, and_true] at h
+        obtain ⟨rfl, rfl, rfl⟩ := h
+        split
+        · refine ⟨_, rfl, ?_⟩
+          split
+          · omega
+          · split
+            · exact congrArg some (by omega)
+            · omega
+        · omega
+    · simp at h
+
+example : hangulDecomp 0xAC01 = some [0x1100, 0x1161, 0x11A8] ∧ hangulDecomp 0xD7A3 = some [0x1112, 0x1175, 0x11C2] ∧
+    hangulDecomp 0xAC00 = some [0x1100, 0x1161] ∧ hangulDecomp 0xD7A4 = none := by decide
+
+/-- The normalisation algorithm on a small extract of the character database (combining classes of three marks, the
+    decompositions and primary composites of five letters): composition across a junction, three levels, canonical
+    reordering, blocking, a composition exclusion, Hangul, and the evaluator on top of it. -/
+def C04.ucdSample : Ucd :=
+  ⟨[(0x301, 230), (0x302, 230), (0x323, 220), (0x93C, 7)],
+   [(0xE9, [0x65, 0x301]), (0xF4, [0x6F, 0x302]), (0x1ED1, [0x6F, 0x302, 0x301]), (0x1EA1, [0x61, 0x323]), (0xE1, [0x61, 0x301]),
+    (0x958, [0x915, 0x93C])],
+   [((0x65, 0x301), 0xE9), ((0x6F, 0x302), 0xF4), ((0xF4, 0x301), 0x1ED1), ((0x61, 0x323), 0x1EA1), ((0x61, 0x301), 0xE1)]⟩
+
+example : C04.ucdSample.nfc ([0x65] ++ [0x301]) = [0xE9] := by decide
+example : C04.ucdSample.nfc [0x63, 0x61, 0x66, 0xE9] = C04.ucdSample.nfc [0x63, 0x61, 0x66, 0x65, 0x301] := by decide
+example : C04.ucdSample.nfc [0x6F, 0x302, 0x301] = [0x1ED1] ∧ C04.ucdSample.nfd [0x1ED1] = [0x6F, 0x302, 0x301] := by decide
+example : C04.ucdSample.nfc [0x61, 0x301, 0x323] = [0x1EA1, 0x301] := by decide          -- the dot below is ordered first
+example : C04.ucdSample.nfc [0x6F, 0x302, 0x302, 0x301] = [0xF4, 0x302, 0x301] := by decide   -- the acute is blocked by a mark of its own class
+example : C04.ucdSample.nfc [0x958] = [0x915, 0x93C] := by decide                       -- excluded from composition
+example : Ucd.empty.nfc [0x1100, 0x1161, 0x11A8] = [0xAC01] ∧ Ucd.empty.nfd [0xAC01] = [0x1100, 0x1161, 0x11A8] := by decide
+example : Ucd.empty.nfc [0x1100, 0x11A8] = [0x1100, 0x11A8] := by decide                -- a trailing consonant needs an LV syllable
+example : @evalBin ⟨C04.ucdSample.nfc⟩ .eq (.str ([0x65] ++ [0x301])) (.str [0xE9]) = .ok (.bool true) := by decide
+example : @eval ⟨C04.ucdSample.nfc⟩ [] (.bin .eq (.bin .add (.lit (.str "'e'")) (.lit (.str "'\\u0301'"))) (.lit (.str "'\\u00e9'"))) =
+    .ok (.bool true) := by decide +kernel
+example : @eval ⟨C04.ucdSample.nfc⟩ [] (.attr (.setLit [.lit (.str "'e\\u0301'"), .lit (.str "'\\u00e9'")]) "count") = .ok (.rat 2) := by
+  decide +kernel                                                                        -- a set identifies its elements by the raw text
+
 /-! ## sets -/
 
 /-- Set algebra: `|`, `&`, `^` are union, intersection and symmetric difference. -/
-theorem C04.sets_algebra (as bs r : List Scalar) :
+theorem C04.sets_algebra [StrNorm] (as bs r : List Scalar) :
     (evalBin .bor (.set as) (.set bs) = .ok (.set r) → ∀ x, x ∈ r ↔ x ∈ as ∨ x ∈ bs) ∧
     (evalBin .band (.set as) (.set bs) = .ok (.set r) → ∀ x, x ∈ r ↔ x ∈ as ∧ x ∈ bs) ∧
     (evalBin .bxor (.set as) (.set bs) = .ok (.set r) → ∀ x, x ∈ r ↔ (x ∈ as ∧ x ∉ bs) ∨ (x ∈ bs ∧ x ∉ as)) :=
   ⟨evalBin_union as bs r, evalBin_inter as bs r, evalBin_symdiff as bs r⟩
 
-example : evalBin .bxor (.set [.rat 1, .rat 2]) (.set [.rat 2, .rat 3]) = .ok (.set [.rat 1, .rat 3]) := by decide +kernel
+example : @evalBin StrNorm.plain .bxor (.set [.rat 1, .rat 2]) (.set [.rat 2, .rat 3]) = .ok (.set [.rat 1, .rat 3]) := by decide +kernel
 
 /-- Set comparison: `==` extensional equality, `<=`/`>=` sub/superset, `<`/`>` proper sub/superset. -/
-theorem C04.sets_compare (op : BinOp) (as bs : List Scalar) (r : Bool) (h : evalBin op (.set as) (.set bs) = .ok (.bool r)) :
+theorem C04.sets_compare [StrNorm] (op : BinOp) (as bs : List Scalar) (r : Bool) (h : evalBin op (.set as) (.set bs) = .ok (.bool r)) :
     (op = .eq → (r = true ↔ ∀ x, x ∈ as ↔ x ∈ bs)) ∧
     (op = .ne → (r = true ↔ ¬ ∀ x, x ∈ as ↔ x ∈ bs)) ∧
     (op = .le → (r = true ↔ ∀ x ∈ as, x ∈ bs)) ∧
@@ -112,16 +208,16 @@ theorem C04.sets_compare (op : BinOp) (as bs : List Scalar) (r : Bool) (h : eval
     (op = .gt → (r = true ↔ (∀ x ∈ bs, x ∈ as) ∧ ¬ ∀ x, x ∈ as ↔ x ∈ bs)) :=
   evalBin_set_cmp op as bs r h
 
-example : evalBin .lt (.set [.rat 1]) (.set [.rat 2, .rat 1]) = .ok (.bool true) := by decide +kernel
-example : evalBin .lt (.set [.rat 1, .rat 2]) (.set [.rat 2, .rat 1]) = .ok (.bool false) := by decide +kernel
+example : @evalBin StrNorm.plain .lt (.set [.rat 1]) (.set [.rat 2, .rat 1]) = .ok (.bool true) := by decide +kernel
+example : @evalBin StrNorm.plain .lt (.set [.rat 1, .rat 2]) (.set [.rat 2, .rat 1]) = .ok (.bool false) := by decide +kernel
 
 /-- Element-wise application of the arithmetic operators, operand order preserved on both sides. -/
-theorem C04.sets_elementwise (op : BinOp) (s : List Scalar) (c : Scalar) (r : List Scalar) :
+theorem C04.sets_elementwise [StrNorm] (op : BinOp) (s : List Scalar) (c : Scalar) (r : List Scalar) :
     (evalBin op (.set s) (.sc c) = .ok (.set r) → ∀ y, y ∈ r ↔ ∃ x ∈ s, scBin op x c = .ok y) ∧
     (evalBin op (.sc c) (.set s) = .ok (.set r) → ∀ y, y ∈ r ↔ ∃ x ∈ s, scBin op c x = .ok y) :=
   ⟨evalBin_elementwise_left op s c r, evalBin_elementwise_right op c s r⟩
 
-example : evalBin .sub (.rat 10) (.set [.rat 1, .rat 2]) = .ok (.set [.rat 9, .rat 8]) := by decide +kernel
+example : @evalBin StrNorm.plain .sub (.rat 10) (.set [.rat 1, .rat 2]) = .ok (.set [.rat 9, .rat 8]) := by decide +kernel
 
 /-- Set literals: an empty literal and a literal of mixed kinds are rejected; otherwise the literal is its set of
     elements. -/
@@ -157,10 +253,10 @@ theorem C04.sets_literal (vs : List Scalar) :
     simp only [List.length_map, BEq.rfl, ↓reduceIte]
     exact mkSetS_ok_of vs hne hk'
 
-example : eval [] (.setLit []) = .error (.invalid .emptySet) := by decide +kernel
+example : @eval StrNorm.plain [] (.setLit []) = .error (.invalid .emptySet) := by decide +kernel
 
 /-- `.min` / `.max` of a set of rationals are its least / greatest element, `.count` its cardinality. -/
-theorem C04.sets_attributes (a : Rat) (l : List Scalar) (hl : ∀ x ∈ l, ∃ q, x = .rat q) :
+theorem C04.sets_attributes [StrNorm] (a : Rat) (l : List Scalar) (hl : ∀ x ∈ l, ∃ q, x = .rat q) :
     (∃ m : Rat, evalAttr (.set (.rat a :: l)) "min" = .ok (.rat m) ∧ Scalar.rat m ∈ (Scalar.rat a :: l) ∧
         ∀ q, Scalar.rat q ∈ (Scalar.rat a :: l) → m ≤ q) ∧
     (∃ m : Rat, evalAttr (.set (.rat a :: l)) "max" = .ok (.rat m) ∧ Scalar.rat m ∈ (Scalar.rat a :: l) ∧
@@ -187,7 +283,7 @@ theorem C04.sets_attributes (a : Rat) (l : List Scalar) (hl : ∀ x ∈ l, ∃ q
       · exact hall q h
   · simp [evalAttr]
 
-example : evalAttr (.set [.rat 3, .rat 1, .rat 2]) "min" = .ok (.rat 1) := by decide +kernel
+example : @evalAttr StrNorm.plain (.set [.rat 3, .rat 1, .rat 2]) "min" = .ok (.rat 1) := by decide +kernel
 
 /-! ## literals -/
 
